@@ -1,6 +1,239 @@
 import OtelVerif.Common.Line
 import OtelVerif.Model.C04
-/-! driver for C04 (stub) -/
-def main : IO UInt32 := do
-  IO.eprintln "drv_c04: not built yet"
-  return 2
+/-! driver for C04: models `c04-ms` (MergeSplit, exact differential) and `c04-batcher` -/
+open OtelVerif OtelVerif.Line OtelVerif.Payload OtelVerif.C04
+
+namespace OtelVerif.Drivers.C04
+
+def keep : Bool := OtelVerif.Gen.C04Shape.metricFragmentKeepsIdentity
+
+/-- one output request as printed by both sides -/
+structure OutReq where
+  cs : Int
+  sz : Int
+  toks : List String
+
+inductive Inp where
+  | none
+  | logs (sz : Sizer) (max : Int) (p : List Res)
+  | metrics (sz : Sizer) (max : Int) (p : List MRes)
+
+structure MS where
+  inp : Inp := .none
+  impl : List OutReq := []     -- reversed
+  implDiverged : Bool := false
+  bad : Option String := none
+
+def showReqs {P : Type} (o : Ops P) (showP : P → String) (rs : Option (List (Req P))) : List String :=
+  match rs with
+  | Option.none => ["obs diverge"]
+  | some rs =>
+    s!"obs n {rs.length}" :: (rs.zipIdx.map (fun (r, i) => s!"obs req {i} cs={r.cached} sz={o.size r.p} | {showP r.p}"))
+
+def parseSizer (s : String) : Option Sizer :=
+  if s = "items" then some ⟨false⟩ else if s = "bytes" then some ⟨true⟩ else Option.none
+
+/-- property oracle on the implementation's output (independent of the model's output) -/
+def checkLogs (sz : Sizer) (max : Int) (src : List Res) (outs : List OutReq) : List String :=
+  match outs.mapM (fun o => Codec.parsePayload o.toks) with
+  | Option.none => ["prop conserve=FAIL sig=C04/mergesplit/unparsable-output"]
+  | some ps =>
+    let a := ps.flatMap flatten
+    let b := flatten src
+    let ids := fun (l : List Ctx) => l.map (·.2.2.id)
+    [ if permB a b then "prop conserve=ok"
+      else if permB (ids a) (ids b) then "prop conserve=FAIL sig=C04/mergesplit/item-context-changed"
+      else "prop conserve=FAIL sig=C04/mergesplit/items-lost-or-duplicated",
+      -- items that weigh nothing in the configured unit (a profile without samples under the items sizer) do not count
+      match (outs.zip ps).find? (fun (o, p) => max != 0 && o.sz > max && ((flatten p).filter (fun c => itemSize sz c.2.2 > 0)).length > 1) with
+      | some (o, p) => s!"prop bound=FAIL sig=C04/mergesplit/batch-exceeds-max size={o.sz} max={max} items={(flatten p).length}"
+      | Option.none => "prop bound=ok",
+      match (outs.zip ps).find? (fun (o, p) => o.cs != -1 && o.cs != payloadSize sz p) with
+      | some (o, p) => s!"prop cached=FAIL sig=C04/mergesplit/cached-size-wrong cached={o.cs} size={payloadSize sz p}"
+      | Option.none => "prop cached=ok" ]
+
+def checkMetrics (sz : Sizer) (max : Int) (src : List MRes) (outs : List OutReq) : List String :=
+  match outs.mapM (fun o => Codec.parseMPayload o.toks) with
+  | Option.none => ["prop conserve=FAIL sig=C04/mergesplit/unparsable-output"]
+  | some ps =>
+    let a := ps.flatMap mflatten
+    let b := mflatten src
+    let ids := fun (l : List MCtx) => l.map (·.2.2.2.id)
+    [ if permB a b then "prop conserve=ok"
+      else if permB (ids a) (ids b) then "prop conserve=FAIL sig=C04/mergesplit/metric-identity-lost"
+      else "prop conserve=FAIL sig=C04/mergesplit/points-lost-or-duplicated",
+      match (outs.zip ps).find? (fun (o, p) => max != 0 && o.sz > max && (mflatten p).length > 1) with
+      | some (o, p) => s!"prop bound=FAIL sig=C04/mergesplit/batch-exceeds-max size={o.sz} max={max} items={(mflatten p).length}"
+      | Option.none => "prop bound=ok",
+      -- the bytes accounting of a metric cut in two is an upper bound (the data message's own length prefix may shrink)
+      match (outs.zip ps).find? (fun (o, p) => o.cs != -1 && (if sz.bytes then o.cs < mpayloadSize sz p else o.cs != mpayloadSize sz p)) with
+      | some (o, p) => s!"prop cached=FAIL sig=C04/mergesplit/cached-size-wrong cached={o.cs} size={mpayloadSize sz p}"
+      | Option.none => "prop cached=ok" ]
+
+def msHandler : Handler MS where
+  init := {}
+  onOp := fun s toks =>
+    match toks with
+    | "delta" :: n :: [] =>
+      match n.toInt? with
+      | some n => (s, [s!"obs delta {(Sizer.delta ⟨true⟩ n)}"])
+      | Option.none => (s, ["obs bad-op"])
+    | "ms" :: rest =>
+      let parts := Codec.bars rest
+      match parts with
+      | [hdr, t1, t2] =>
+        match kv hdr "sig", (kv hdr "sizer").bind parseSizer, kvInt hdr "max", kvInt hdr "c1", kv hdr "c2" with
+        | some sig, some sz, some max, some c1, some c2 =>
+          let c2? : Option (Option Int) := if c2 = "none" then some Option.none else (c2.toInt?).map some
+          match c2? with
+          | Option.none => (s, ["obs bad-op"])
+          | some c2 =>
+            if sig = "metrics" then
+              match Codec.parseMPayload t1, Codec.parseMPayload t2 with
+              | some p1, some p2 =>
+                let o := metricsOps keep sz
+                let r := mergeSplit o max { p := p1, cached := c1 } (c2.map (fun c => { p := p2, cached := c }))
+                ({ s with inp := .metrics sz max (p1 ++ p2) }, showReqs o Codec.showMPayload r)
+              | _, _ => (s, ["obs bad-op"])
+            else
+              match Codec.parsePayload t1, Codec.parsePayload t2 with
+              | some p1, some p2 =>
+                let o := logsOps sz
+                let r := mergeSplit o max { p := p1, cached := c1 } (c2.map (fun c => { p := p2, cached := c }))
+                ({ s with inp := .logs sz max (p1 ++ p2) }, showReqs o Codec.showPayload r)
+              | _, _ => (s, ["obs bad-op"])
+        | _, _, _, _, _ => (s, ["obs bad-op"])
+      | _ => (s, ["obs bad-op"])
+    | _ => (s, ["obs bad-op"])
+  onObs := fun s toks =>
+    match toks with
+    | _ :: "req" :: _ :: rest =>
+      match Codec.bars rest with
+      | [hdr, t] =>
+        match kvInt hdr "cs", kvInt hdr "sz" with
+        | some cs, some sz => { s with impl := ⟨cs, sz, t⟩ :: s.impl }
+        | _, _ => { s with bad := some "unparsable req line" }
+      | _ => { s with bad := some "unparsable req line" }
+    | [_, "diverge"] => { s with implDiverged := true }
+    | _ => s
+  onEnd := fun s =>
+    if s.implDiverged then ["prop terminates=FAIL sig=C04/mergesplit/does-not-terminate"] else
+    match s.bad with
+    | some b => [s!"prop conserve=FAIL sig=C04/mergesplit/unparsable-output {b}"]
+    | Option.none =>
+      match s.inp with
+      | .none => []
+      | .logs sz max p => checkLogs sz max p s.impl.reverse
+      | .metrics sz max p => checkMetrics sz max p s.impl.reverse
+
+/-! ### batcher -/
+
+def showParts (p : Parts) : String :=
+  if p.isEmpty then "-" else ",".intercalate (p.map (fun (id, n) => s!"{id}:{n}"))
+
+def parseParts (s : String) : Option Parts :=
+  if s = "-" then some [] else
+  (s.splitOn ",").mapM (fun x => match x.splitOn ":" with
+    | [a, b] => do pure (← a.toNat?, ← b.toNat?)
+    | _ => Option.none)
+
+def sortStrings (l : List String) : List String := l.mergeSort (fun a b => a ≤ b)
+
+/-- implementation-side view for the oracle -/
+structure IFlight where
+  fid : Nat
+  ids : List Nat
+  finished : Option Bool := none   -- some err
+
+structure BS where
+  cfg : BCfg := ⟨0, 0⟩
+  st : BState := {}
+  consumed : List Nat := []
+  iflights : List IFlight := []
+  ifired : List (Nat × Bool) := []
+  fails : List String := []
+  lastFinish : Option (Nat × Bool) := none
+
+def startFlights (s : BS) (fl : List (Parts × List DoneObj)) : BS × List String :=
+  -- the harness numbers the flushes started by one label in the order of their content
+  let sorted := (fl.map (fun x => (showParts x.1, x))).mergeSort (fun a b => a.1 ≤ b.1)
+  let (st, lines) := sorted.foldl (fun (acc : BState × List String) x =>
+    let st := acc.1
+    ({ st with flights := st.flights ++ [⟨st.nextF, x.2.1, x.2.2⟩], nextF := st.nextF + 1 },
+     acc.2 ++ [s!"obs flush f={st.nextF} parts={x.1}"])) (s.st, [])
+  ({ s with st := st }, lines)
+
+def showCur (s : BS) : String :=
+  match s.st.cur with
+  | some (p, _) => s!"obs cur {showParts p}"
+  | Option.none => "obs cur none"
+
+def showFired (l : List (Nat × Bool)) : List String :=
+  sortStrings (l.map (fun (id, e) => s!"obs fired id={id} err={if e then 1 else 0}"))
+
+def batcherHandler : Handler BS where
+  init := {}
+  onOp := fun s toks =>
+    match toks with
+    | ["cfg", mn, mx] =>
+      match kvNat [mn] "min", kvNat [mx] "max" with
+      | some mn, some mx => ({ s with cfg := ⟨mn, mx⟩ }, ["obs done"])
+      | _, _ => (s, ["obs bad-op"])
+    | ["consume", id, us] =>
+      match kvNat [id] "id", (kv [us] "units").bind (fun u => (u.splitOn ",").mapM String.toNat?) with
+      | some id, some us =>
+        let r := s.st.consume s.cfg id (us.map (fun n => (id, n)))
+        let (s', lines) := startFlights { s with st := r.1, consumed := s.consumed ++ [id] } r.2
+        (s', lines ++ [showCur s'])
+      | _, _ => (s, ["obs bad-op"])
+    | ["finish", f, ok] =>
+      match kvNat [f] "f", kvNat [ok] "ok" with
+      | some f, some ok =>
+        let r := s.st.finish f (ok == 0)
+        let s' := { s with st := r.1, lastFinish := some (f, ok == 0) }
+        (s', showFired r.2 ++ [showCur s'])
+      | _, _ => (s, ["obs bad-op"])
+    | ["tick"] | ["shutdown"] =>
+      let r := s.st.flushCur
+      let (s', lines) := startFlights { s with st := r.1 } r.2
+      (s', lines ++ [showCur s'])
+    | _ => (s, ["obs bad-op"])
+  onObs := fun s toks =>
+    -- a `finish` label takes effect on the oracle's view before the implementation's `fired` lines are judged
+    let s := match s.lastFinish with
+      | some (f, err) => { s with lastFinish := Option.none,
+                                   iflights := s.iflights.map (fun g => if g.fid = f then { g with finished := some err } else g) }
+      | Option.none => s
+    match toks with
+    | [_, "flush", f, parts] =>
+      match kvNat [f] "f", (kv [parts] "parts").bind parseParts with
+      | some f, some p => { s with iflights := s.iflights ++ [{ fid := f, ids := (p.map (·.1)).eraseDups }] }
+      | _, _ => { s with fails := s.fails ++ ["prop done=FAIL sig=C04/batcher/unparsable-flush"] }
+    | [_, "fired", id, err] =>
+      match kvNat [id] "id", kvNat [err] "err" with
+      | some id, some err =>
+        let mine := s.iflights.filter (fun g => g.ids.contains id)
+        let s := { s with ifired := s.ifired ++ [(id, err == 1)] }
+        if (s.ifired.filter (·.1 = id)).length > 1 then
+          { s with fails := s.fails ++ [s!"prop done=FAIL sig=C04/batcher/done-fired-twice id={id}"] }
+        else if mine.any (fun g => g.finished.isNone) then
+          { s with fails := s.fails ++ [s!"prop done=FAIL sig=C04/batcher/done-before-all-batches-finished id={id}"] }
+        else if mine.isEmpty then
+          { s with fails := s.fails ++ [s!"prop done=FAIL sig=C04/batcher/done-without-any-batch id={id}"] }
+        else if (err == 1) != mine.any (fun g => g.finished == some true) then
+          { s with fails := s.fails ++ [s!"prop done=FAIL sig=C04/batcher/done-error-mismatch id={id} reported={err}"] }
+        else s
+      | _, _ => { s with fails := s.fails ++ ["prop done=FAIL sig=C04/batcher/unparsable-fired"] }
+    | _ => s
+  onEnd := fun s =>
+    -- conservation through the batcher: every unit of every consumed request left in exactly one flush
+    let missing := s.consumed.filter (fun id => !(s.ifired.any (·.1 = id)))
+    (match s.fails with
+     | f :: _ => [f]
+     | [] => ["prop done=ok"]) ++
+    (if missing.isEmpty then ["prop all_fired=ok"] else [s!"prop all_fired=FAIL sig=C04/batcher/done-never-fired ids={missing}"])
+
+end OtelVerif.Drivers.C04
+
+def main : IO UInt32 :=
+  runMulti [("c04-ms", run OtelVerif.Drivers.C04.msHandler), ("c04-batcher", run OtelVerif.Drivers.C04.batcherHandler)]
